@@ -10,7 +10,8 @@ CONFIG = dict(
                "thread per session/subscriber) under a deterministic scheduler that releases one thread at a time between the "
                "cfg-guarded scheduling points in table_manager.rs, on the same schedules as the model, diffing every received "
                "event history, return value and the final iter_reach/iter_reach_post; the reference checker is the oracle on "
-               "the real observations; the real bmp.rs apply_snapshot / track_peer_up / track_peer_down consume the stream.",
+               "the real observations; the real bmp.rs apply_snapshot folds the snapshot phase and the real send_peer_up / send_peer_down "
+               "forward every live PeerUp/PeerDown event onto a real loopback BMP connection whose bytes are decoded as the observation.",
     level_note="Trusted: Lean kernel; axioms propext/Classical.choice/Quot.sound; hand-written model (checked only by the "
                "correspondence stream); harness glue (session teardown = unregister_peer then peer_down transcribed from "
                "event/mod.rs; fresh Source + prefix counter per session; Loc-RIB/Adj-RIB-Out/EOR events dropped from the "
@@ -48,14 +49,16 @@ CONFIG = dict(
                   "soft_reset_in/unregister_peer/peer_up/peer_down) and of bmp.rs apply_snapshot/track_peer_up/track_peer_down",
                   "harness/daemon/c18.rs: deterministic scheduler over the cfg(osrg_rustybgp_verif) scheduling points "
                   "(table_manager::verif_sched); session teardown order transcribed from event/mod.rs; prefixes chosen per shard by "
-                  "probing the real dealer; harness/daemon/c18_bmp.rs exposes the private bmp.rs consumer functions"],
+                  "probing the real dealer; harness/daemon/c18_bmp.rs exposes the private bmp.rs consumer functions: the PeerUp/PeerDown "
+                  "message construction of BmpClient::serve's live loop is transcribed, send_peer_up/send_peer_down are the real ones writing "
+                  "to a real Framed<TcpStream, BmpCodec>; the forwarded stream is read back from the peer socket (BMP type + per-peer address)"],
     modelled_not_verified=["memory ordering below the granularity of Mutex / ArcSwap operations (sequential consistency assumed at the "
                            "scheduling points)",
                            "sub-critical-section interleavings of channel sends (events of other shards / other peers landing between "
                            "the pre- and post-policy notification of one insert): they commute in the fold",
                            "the window between subscribers.load() and the sends inside peer_up/peer_down (one atomic step in the model)",
                            "BmpClient::serve as a whole (PeerUp reconstruction from global peer state, flush per established peer, TCP "
-                           "back-pressure); only apply_snapshot and track_peer_up/down are executed",
+                           "back-pressure); only apply_snapshot and send_peer_up/send_peer_down (hence track_peer_up/down) are executed",
                            "GR-retained stale routes and their purge (outside the quantifier by DESIGN 4.0; remark S28b witnessed in "
                            "corpus/C18/remarks.case comments and known-findings.json)"],
     assumptions=["a peer address is owned by one session task at a time (writer thread i = peer i): sessions of the same peer are sequential",
@@ -168,6 +171,29 @@ def gen_softreset(r):
     return case_str(n, gran, 0, threads, sched)
 
 
+def gen_peers(r):
+    """several sessions going up and down around the subscription point(s): PeerDown for a peer whose
+    PeerUp this subscriber never saw while another peer's PeerUp was forwarded, re-subscription, ..."""
+    n = r.pick([1, 2])
+    nw = 2 + r.below(2)
+    threads = []
+    for _ in range(nw):
+        ops = []
+        for _ in range(1 + r.below(4)):
+            x = r.below(10)
+            if x < 4:
+                ops.append("up")
+            elif x < 8:
+                ops.append("down")
+            else:
+                ops.append("(ins %d 0 0 %d)" % (r.below(n), 1 + r.below(9)))
+        threads.append(("w", ops))
+    threads.append(("s", r.pick([["(sub f)"], ["(sub t)"], ["(sub f)", "unsub", "(sub t)"], ["(sub t)", "unsub", "(sub f)"]])))
+    if r.chance(1, 2):
+        threads.reverse()
+    return case_str(n, 0, 0, threads, [r.below(len(threads)) for _ in range(8 + r.below(20))])
+
+
 def gen_sequential_points(r):
     """one writer history, a subscriber that subscribes after exactly p writer segments (all p)."""
     n = r.pick([1, 2, 3])
@@ -273,6 +299,8 @@ def gen(seed, n, tier):
             out.append(gen_random(r))
         elif x < 72:
             out.append(gen_softreset(r))
+        elif x < 84:
+            out.append(gen_peers(r))
         elif x < 97:
             out += gen_sequential_points(r)
         else:
